@@ -90,13 +90,14 @@ PROPS = {
         'level': 'proof',
         'timeout': {'quick': 900, 'thorough': 3600},
         'assumptions': [
-            'PARTIAL: decided for schema 2.x only, per operation: every public getter and setter of v2::track_impl (26 fields incl. the per-slot cue / loop accessors) against a GHOST COLUMN STORE that stands for the SQL table layer',
+            'PARTIAL: decided per operation for schema 2.x (all accessors) and for the performance-data-backed accessors of schema 1.x: every public getter and setter of v2::track_impl (26 fields incl. the per-slot cue / loop accessors) against a GHOST COLUMN STORE that stands for the SQL table layer',
             'ASSUMED, not decided (it is SQL: C18 under not_applicable): each track_table::get_X / set_X pair reads / overwrites exactly one column of the addressed row and nothing else, on every 2.x schema version, through the blob codecs (C03/C04); other tracks are other rows and are not touched by a single-row statement',
             'the single step is mechanised as 26 lemma harnesses over the contracts (C06.step.set_<field>: from an arbitrary stored state, all 23 getters before, the setter, all 23 getters after: the own getter returns the normalised argument, every other getter returns what it returned before); "after ANY sequence of setter calls" is the repetition of that step (each step starts from an arbitrary state), which is not a separate obligation',
             'per-slot setters: the step lemma looks at the cue / loop list getter at the index (ghost element = index); that every OTHER slot is kept is the postcondition other_slots_kept of set_hot_cue_at / set_loop_at themselves (second ghost index), not repeated in the step lemma',
             'a failed (throwing) setter call is not examined here (that is C14)',
             'getter / snapshot agreement: harness C06.getters_agree_with_snapshot - over the getter contracts and the C01 contract of track_impl::snapshot, with the fetched row taken to consist of the same columns (table-layer assumption again)',
-            'NOT covered: schema 1.x (engine_track_impl setters read-modify-write PerformanceData and metadata rows)',
+            'schema 1.x, PARTIAL: the 16 accessors of v1::engine_track_impl that are backed by decoded performance-data values only (hot_cues / set_hot_cues, hot_cue_at / set_hot_cue_at, main_cue / set_main_cue, loops / set_loops, loop_at / set_loop_at, average_loudness / set_average_loudness, beatgrid / set_beatgrid, sample_rate(), sample_count()) are proved the same way over a ghost performance-data store (get_<X>_data / set_<X>_data replaced by one ghost value per column; contracts/track_v1_c06.spec, generated by tools/gen_c06v1_spec.py): own field stored under the stated normalisation (lists padded to eight slots, zero loudness / zero main cue read as absent), every other slot, the main cue, the other track-data / beat-data fields kept; getters write nothing. No step lemma harnesses for 1.x (the postconditions are per operation)',
+            'NOT covered on schema 1.x: the accessors that go through storage_->get/set_track_column and get/set_meta_data (SQL keyed by column-name strings and metadata type ids: text fields, numbers, rating, bpm, duration, last_played_at, relative_path) and the setters that mix both (set_key, set_sample_rate, set_sample_count, set_waveform); getter / snapshot agreement on 1.x',
             'strings are compared by provenance token, vectors through one arbitrary element (ghost indices), as for C01; the waveform setter is specified up to what a round trip needs (length, and every entry for an overview-length waveform)',
             'domain: stored length within +-2^63/1000 s for duration(); stored sample rate in [0, 2^31] for set_waveform',
         ],
